@@ -740,10 +740,11 @@ impl ParserListener for Screen {
 
         let line = self
             .buffer
-            .get_mut(&self.cursor.y)
-            .expect("can not retrieve line");
-        for x in (self.cursor.x..self.columns + 1).rev() {
-            if x + count <= self.columns {
+            .entry(self.cursor.y)
+            .or_insert_with(HashMap::new);
+        // Cells shifted past the last column are lost.
+        for x in (self.cursor.x..self.columns).rev() {
+            if x + count < self.columns {
                 let x_val = line.get(&x);
                 match x_val {
                     Some(val) => {
